@@ -99,7 +99,7 @@ def draw_site_workload(ctx):
             v['skew'] = rng.choice([None, 0.2, 0.5, 1.0, 2.0, 5.0, 50.0, 3.3, 0.0001, 0.003, 5000.0, 100000.0])
             v['numinst'] = 1
             if rng.random() < 0.25:
-                txt, val = rng.choice([('1e3', 1000.0), ('2.5e1', 25.0), ('5e-2', 0.05), ('1E2', 100.0), ('1e-05', 1e-05), ('3.0e0', 3.0)])
+                txt, val = rng.choice([('1e3', 1000.0), ('2.5e1', 25.0), ('5e-2', 0.05), ('1E2', 100.0), ('1e-05', 1e-05), ('3.0e0', 3.0), ('1000000000000000000', 1e18), ('7', 7.0)])
                 v['skew'], v['skew_text'] = val, txt
                 ctx.cov('skew_in_exponent_notation')
             outdir = ge.fresh_outdir(ctx.workdir, 'c17')
